@@ -189,21 +189,22 @@ def live():
             if not isinstance(K, type) or K.__module__ != m or K.__qualname__ != name:
                 continue
             res = {}
-            prov = [next((B for B in K.__mro__ if meth in vars(B)), object) for meth in ("__hash__", "__eq__")]
+            def own(B, meth):
+                # the harness (pipeline.setup) installs a reproducible Node.__hash__: not part of the repo
+                v = vars(B).get(meth, None) if meth in vars(B) else None
+                return meth in vars(B) and not (inspect.isfunction(v) and v.__module__ == "pipeline")
+            prov = [next((B for B in K.__mro__ if own(B, meth)), object) for meth in ("__hash__", "__eq__")]
             if not all(B.__module__.startswith(PKG + ".") or B is object for B in prov):
                 continue   # e.g. the functional-API Enum `Keywords`: not a class statement, foreign methods
-            for meth in ("__hash__", "__eq__"):
-                fn = None
-                for B in K.__mro__:
-                    if meth in vars(B):
-                        fn = vars(B)[meth]
-                        break
+            for meth, B in zip(("__hash__", "__eq__"), prov):
+                fn = vars(B).get(meth)
                 if fn is None or not inspect.isfunction(fn):
                     res[meth] = False
                 else:
                     t = ast.parse(textwrap.dedent(inspect.getsource(fn)))
                     res[meth] = _reads_self(t.body[0])
-            rows.append((m, name, res["__hash__"], res["__eq__"], K.__hash__ is not None))
+            hashable = vars(prov[0]).get("__hash__", 1) is not None if prov[0] is not object else True
+            rows.append((m, name, res["__hash__"], res["__eq__"], hashable))
     return sorted(rows)
 
 
